@@ -951,44 +951,6 @@ Proof. split; [vm_compute; reflexivity|]. intros n [<-|[<-|[]]]; vm_compute; ref
 (* ---- wait_all_or_error ---- *)
 From VT Require Import Client.Witness.
 
-(* while connect() waits: connected is still False, the transport is up, the request is fixed *)
-Definition W (req : list str) (s : cli) : Prop :=
-  connected s = false /\ eio_state s = EConnected /\ conn_ns s = req.
-
-Lemma W_handle_disconnect req c pns : pres (W req) (handle_disconnect c pns).
-Proof.
-  unfold handle_disconnect. apply pres_getS_bind. intros s H. destruct H as (Hc & He & Hr).
-  rewrite Hc. cbn [negb]. repeat split; assumption.
-Qed.
-Lemma W_handle_eio_message req c loads payload : pres (W req) (handle_eio_message c loads payload).
-Proof.
-  assert (Hns : forall f, pres (W req) (set_namespaces f)) by (intros f s H; exact H).
-  assert (Hbp : forall b, pres (W req) (set_binpkt b)) by (intros b s H; exact H).
-  assert (Hcf : pres (W req) (set_connected false)) by (intros s H; destruct H as (? & ? & ?); repeat split; assumption).
-  assert (Hcb : forall ns i, pres (W req) (set_callbacks (fun cbs => drop_callback cbs ns i))) by (intros ns i s H; exact H).
-  unfold handle_eio_message.
-  pres_go ltac:(first [ apply Hns | apply Hbp | apply (pres_handle_connect _ Hns) | apply pres_handle_event
-                      | apply (pres_handle_ack _ Hcb) | apply (pres_handle_error _ Hcf Hns)
-                      | apply W_handle_disconnect ]).
-Qed.
-Lemma W_deliver req c payload tbl : pres (W req) (deliver c payload tbl).
-Proof.
-  unfold deliver. pres_go ltac:(first [apply W_handle_eio_message]).
-Qed.
-Lemma W_window req c window : pres (W req) (forM window (fun m => deliver c (fst m) (snd m))).
-Proof. apply pres_forM. intro m. apply W_deliver. Qed.
-Lemma W_opened s req auth : W req (opened s req auth).
-Proof. repeat split. Qed.
-
-Lemma forM_deliver_ok c window s : rs (forM window (fun m => deliver c (fst m) (snd m))) s = Ok tt.
-Proof.
-  revert s. induction window as [|m r IH]; intro s; [reflexivity|]. cbn [forM]. unfold rs. rewrite bind_run.
-  assert (Hd : rs (deliver c (fst m) (snd m)) s = Ok tt).
-  { unfold rs, deliver. rewrite getS_bind. destruct (eiost_eqb (eio_state s) EConnected); [|reflexivity].
-    unfold contain. destruct (handle_eio_message c (table_loads (snd m)) (fst m) s) as [[? ?] ?]. reflexivity. }
-  rewrite Hd. cbn [snd]. apply IH.
-Qed.
-
 (* what disconnect() does while `connected` is still False: DISCONNECT packets, the transport is
    closed, callbacks / binary packet / sid are reset - but `namespaces` is NOT emptied *)
 Definition failed_state (s : cli) : cli :=
@@ -1026,72 +988,174 @@ Proof.
   unfold st, ef, rs. cbv beta. rewrite (eio_disconnect_unconnected c None s Hc He). cbn [fst snd]. rewrite app_nil_r. reflexivity.
 Qed.
 
+(* while connect() waits: connected is still False and the request is fixed; either the transport
+   is up, or the last accepted namespace has been ended by the server inside the window, in which
+   case the client has closed the transport and is already fully reset *)
+Definition W (req : list str) (s : cli) : Prop :=
+  connected s = false /\ eio_state s = EConnected /\ conn_ns s = req.
+Definition Wd (req : list str) (s : cli) : Prop :=
+  connected s = false /\ conn_ns s = req /\ eio_state s = EDisconnected /\ namespaces s = [] /\
+  callbacks s = [] /\ binpkt s = None /\ sid s = PNone /\ eio_sid s = PNone.
+Definition W' (req : list str) (s : cli) : Prop := W req s \/ Wd req s.
+Definition hoareW (req : list str) {A} (m : CM A) : Prop := forall s, W req s -> W' req (st m s).
+
+Lemma hoare_of_pres req {A} (m : CM A) : pres (W req) m -> hoareW req m.
+Proof. intros H s Hs. left. apply H, Hs. Qed.
+Lemma hoare_bind req {A B} (m : CM A) (k : A -> CM B) :
+  pres (W req) m -> (forall a, hoareW req (k a)) -> hoareW req (bindM m k).
+Proof.
+  intros Hm Hk s Hs. unfold st. rewrite bind_run. destruct (rs m s) as [a|x]; cbn [fst].
+  - apply Hk, Hm, Hs.
+  - left. apply Hm, Hs.
+Qed.
+Lemma hoare_getS_bind req {B} (k : cli -> CM B) :
+  (forall s, W req s -> W' req (st (k s) s)) -> hoareW req (bindM getS k).
+Proof. intros Hk s Hs. unfold st. rewrite getS_bind. apply Hk, Hs. Qed.
+Lemma hoare_contain req (m : CM unit) : hoareW req m -> hoareW req (contain m).
+Proof. intros Hm s Hs. specialize (Hm s Hs). unfold st, contain in *. destruct (m s) as [[s1 e1] r]. exact Hm. Qed.
+
+Lemma W_namespaces req f : pres (W req) (set_namespaces f).
+Proof. intros s H. exact H. Qed.
+Lemma W_binpkt req b : pres (W req) (set_binpkt b).
+Proof. intros s H. exact H. Qed.
+Lemma W_connected_false req : pres (W req) (set_connected false).
+Proof. intros s H. destruct H as (? & ? & ?). repeat split; assumption. Qed.
+Lemma W_cb_drop req ns i : pres (W req) (set_callbacks (fun cbs => drop_callback cbs ns i)).
+Proof. intros s H. exact H. Qed.
+
+(* _handle_disconnect inside the window: ignored for a namespace that is not listed; otherwise the
+   namespace is removed and, when it was the last one, the transport is closed and everything reset *)
+Lemma hoare_handle_disconnect req c pns : hoareW req (handle_disconnect c pns).
+Proof.
+  unfold handle_disconnect. apply hoare_getS_bind. intros s Hs.
+  destruct (negb (connected s) && negb (ahas str_eqb (namespaces s) (ns_or_default pns))); [left; exact Hs|].
+  revert s Hs.
+  change (hoareW req (trigger_ c ev_disconnect (ns_or_default pns) [r_server_disconnect] ;;;
+                      trigger_ c ev_final (ns_or_default pns) [] ;;;
+                      set_namespaces (fun d => adel str_eqb d (ns_or_default pns)) ;;;
+                      s' <~ getS ;; match namespaces s' with
+                                    | [] => set_connected false ;;; eio_disconnect c None
+                                    | _ => ret tt end)).
+  apply hoare_bind; [apply pres_trigger_|intros _].
+  apply hoare_bind; [apply pres_trigger_|intros _].
+  apply hoare_bind; [apply W_namespaces|intros _].
+  apply hoare_getS_bind. intros s (Hc & He & Hr).
+  destruct (namespaces s) as [|x d] eqn:En; [|left; repeat split; assumption].
+  right. unfold st, set_connected. rewrite modify_bind.
+  erewrite eio_disconnect_unconnected by (try reflexivity; exact He).
+  cbn [fst]. unfold Wd, failed_state. cbn. rewrite En. repeat split; assumption.
+Qed.
+
+Ltac W_base req :=
+  first [ apply W_namespaces | apply W_binpkt | apply (pres_handle_connect _ (W_namespaces req))
+        | apply pres_handle_event | apply (pres_handle_ack _ (W_cb_drop req))
+        | apply (pres_handle_error _ (W_connected_false req) (W_namespaces req)) ].
+Lemma hoare_handle_eio_message req c loads payload : hoareW req (handle_eio_message c loads payload).
+Proof.
+  unfold handle_eio_message.
+  repeat first
+    [ apply hoare_handle_disconnect
+    | apply hoare_of_pres; solve [pres_go ltac:(W_base req)]
+    | apply hoare_bind; [solve [pres_go ltac:(W_base req)]|intro]
+    | match goal with
+      | |- hoareW _ (match ?x with _ => _ end) => destruct x
+      | |- hoareW _ (if ?x then _ else _) => destruct x
+      end ].
+Qed.
+Lemma W'_deliver req c payload tbl : pres (W' req) (deliver c payload tbl).
+Proof.
+  intros s [Hs|Hs].
+  - revert s Hs. change (hoareW req (deliver c payload tbl)). unfold deliver.
+    apply hoare_getS_bind. intros s Hs. destruct (eiost_eqb (eio_state s) EConnected); [|left; exact Hs].
+    apply (hoare_contain req _ (hoare_handle_eio_message req c (table_loads tbl) payload) s Hs).
+  - right. unfold st, deliver. rewrite getS_bind. destruct Hs as (H1 & H2 & H3 & H4). rewrite H3. cbn.
+    repeat split; try assumption; apply H4.
+Qed.
+Lemma W'_window req c window : pres (W' req) (forM window (fun m => deliver c (fst m) (snd m))).
+Proof. apply pres_forM. intro m. apply W'_deliver. Qed.
+Lemma W_opened s req auth : W req (opened s req auth).
+Proof. repeat split. Qed.
+
+Lemma forM_deliver_ok c window s : rs (forM window (fun m => deliver c (fst m) (snd m))) s = Ok tt.
+Proof.
+  revert s. induction window as [|m r IH]; intro s; [reflexivity|]. cbn [forM]. unfold rs. rewrite bind_run.
+  assert (Hd : rs (deliver c (fst m) (snd m)) s = Ok tt).
+  { unfold rs, deliver. rewrite getS_bind. destruct (eiost_eqb (eio_state s) EConnected); [|reflexivity].
+    unfold contain. destruct (handle_eio_message c (table_loads (snd m)) (fst m) s) as [[? ?] ?]. reflexivity. }
+  rewrite Hd. cbn [snd]. apply IH.
+Qed.
+
 Definition with_connected (s : cli) (b : bool) : cli :=
   mkCli b (namespaces s) (conn_ns s) (conn_auth s) (callbacks s) (binpkt s) (sid s) (eio_state s) (eio_sid s) (eio_count s).
 
-(* wait_all_or_error, as far as it holds (7.1-d is the exception): connect(wait=True) on a clean
-   client returns normally iff after the wait window `namespaces` has exactly the requested keys;
-   otherwise it raises ConnectionError, the transport is closed and callbacks / binary packet / sid
-   are reset - but the namespaces accepted in the window STAY in `namespaces` *)
-Theorem wait_all_or_error_except c s nss auth window l :
+Lemma api_disconnect_Wd c req s : Wd req s -> api_disconnect c s = (s, [], Ok tt) /\ s = down s.
+Proof.
+  destruct s as [cn nsp cns cau cbs bp sd es esd ec]. unfold Wd. cbn.
+  intros (-> & _ & -> & -> & -> & -> & -> & ->). split; reflexivity.
+Qed.
+Lemma set_eqb_nil_l req : req <> [] -> set_eqb [] req = false.
+Proof. destruct req as [|x r]; [intro H; contradiction H; reflexivity|reflexivity]. Qed.
+
+(* wait_all_or_error, full strength: connect(wait=True) for at least one namespace on a clean client
+   returns normally iff after the wait window `namespaces` has exactly the requested keys (and then
+   the transport is still up); otherwise it raises ConnectionError and the client is fully
+   disconnected - also when the server ended the last accepted namespace inside the window *)
+Theorem wait_all_or_error c s nss auth window l :
   connected s = false -> eio_state s = EDisconnected ->
   let req := match nss with None => derived_namespaces c | Some x => x end in
+  req <> [] ->
   pieces_all CONNECT (auth_value auth) req = Ok l ->
   let s1 := st (forM window (fun m => deliver c (fst m) (snd m))) (opened s req auth) in
-  W req s1 /\
+  W' req s1 /\
   (set_eqb (map fst (namespaces s1)) req = true ->
+   W req s1 /\
    rs (api_connect c nss auth true false window) s = Ok tt /\
    st (api_connect c nss auth true false window) s = with_connected s1 true) /\
   (set_eqb (map fst (namespaces s1)) req = false ->
    forall d, pieces_all DISCONNECT PNone (map fst (namespaces s1)) = Ok d ->
    rs (api_connect c nss auth true false window) s = Err ConnectionError /\
-   st (api_connect c nss auth true false window) s = failed_state s1 /\
-   (fully_disconnected (failed_state s1) <-> namespaces s1 = [])).
+   st (api_connect c nss auth true false window) s = down s1 /\
+   fully_disconnected (st (api_connect c nss auth true false window) s)).
 Proof.
-  intros Hc He req Hl s1.
-  assert (HW : W req s1) by (apply W_window, W_opened).
-  split; [exact HW|]. destruct HW as (Hc1 & He1 & Hr1).
+  intros Hc He req Hreq Hl s1.
+  assert (HW : W' req s1) by (apply W'_window; left; apply W_opened).
+  split; [exact HW|].
   pose proof (connect_sends c s nss auth l Hc He Hl) as Hb. fold req in Hb.
   assert (Hwin : forM window (fun m => deliver c (fst m) (snd m)) (opened s req auth)
                  = (s1, ef (forM window (fun m => deliver c (fst m) (snd m))) (opened s req auth), Ok tt)).
   { rewrite (run_eta _ (opened s req auth)). fold s1. rewrite forM_deliver_ok. reflexivity. }
+  assert (Hr1 : conn_ns s1 = req) by (destruct HW as [(_ & _ & H)|(_ & H & _)]; exact H).
   split.
-  - intro Hset. unfold api_connect, rs, st.
+  - intro Hset.
+    assert (HW1 : W req s1).
+    { destruct HW as [H|H]; [exact H|]. destruct H as (_ & _ & _ & Hn & _). rewrite Hn in Hset. cbn [map] in Hset.
+      rewrite (set_eqb_nil_l req Hreq) in Hset. discriminate. }
+    split; [exact HW1|]. unfold api_connect, rs, st.
     erewrite bind_eq by exact Hb.
     assert (Hw : connect_wait c window (opened s req auth)
                  = (s1, ef (forM window (fun m => deliver c (fst m) (snd m))) (opened s req auth), Ok tt)).
     { unfold connect_wait. erewrite bind_eq by exact Hwin. unfold st, ef, rs. cbv beta. rewrite getS_bind, Hr1, Hset.
       cbn [ret fst snd]. rewrite app_nil_r. reflexivity. }
     unfold st, ef, rs. cbv beta iota. erewrite bind_eq by exact Hw. split; reflexivity.
-  - intros Hset d Hd. unfold api_connect, rs, st.
-    erewrite bind_eq by exact Hb.
-    assert (Hw : connect_wait c window (opened s req auth)
-                 = (failed_state s1, ef (forM window (fun m => deliver c (fst m) (snd m))) (opened s req auth) ++ map Sent d,
-                    Err ConnectionError)).
-    { unfold connect_wait. erewrite bind_eq by exact Hwin. unfold st, ef, rs. cbv beta. rewrite getS_bind, Hr1, Hset.
-      erewrite bind_eq by (apply (api_disconnect_unconnected c s1 d Hc1 He1 Hd)). cbn [raise fst snd]. rewrite app_nil_r.
-      reflexivity. }
-    unfold st, ef, rs. cbv beta iota. erewrite bind_eq_err by exact Hw. cbn [fst snd].
-    split; [reflexivity|]. split; [reflexivity|].
-    split.
-    + intros (_ & H & _). exact H.
-    + intro H. unfold fully_disconnected, failed_state. cbn. rewrite H. repeat split.
-Qed.
-
-(* the full clause is FALSE of the faithful model: partial acceptance raises ConnectionError but
-   leaves the accepted namespace behind, and emit on it does not raise BadNamespaceError *)
-Theorem wait_all_or_error_refuted :
-  exists c s nss auth window,
-    connected s = false /\ eio_state s = EDisconnected /\
-    rs (api_connect c nss auth true false window) s = Err ConnectionError /\
-    let s' := st (api_connect c nss auth true false window) s in
-    ~ fully_disconnected s' /\ namespaces s' = [(slash, PStr (s2l "S0"))] /\
-    api_emit (s2l "x") PNone (Some slash) None s' = (s', [], Ok None).
-Proof.
-  exists cfg_w, cli_init, (Some [slash; s2l "/a"]), PNone, window_partial.
-  split; [reflexivity|]. split; [reflexivity|]. split; [vm_compute; reflexivity|]. cbv zeta.
-  split; [|split; vm_compute; reflexivity].
-  intros (_ & H & _). vm_compute in H. discriminate.
+  - intros Hset d Hd.
+    assert (Hw : exists e, connect_wait c window (opened s req auth) = (down s1, e, Err ConnectionError)).
+    { destruct HW as [(Hc1 & He1 & _)|HWd].
+      - eexists. unfold connect_wait. erewrite bind_eq by exact Hwin. unfold st, ef, rs. cbv beta. rewrite getS_bind, Hr1, Hset.
+        erewrite bind_eq by (apply (api_disconnect_unconnected c s1 d Hc1 He1 Hd)).
+        unfold st, ef, rs. cbv beta. unfold set_namespaces. rewrite modify_bind. cbn [raise fst snd]. reflexivity.
+      - destruct (api_disconnect_Wd c req s1 HWd) as [Hd1 Hdown].
+        eexists. unfold connect_wait. erewrite bind_eq by exact Hwin. unfold st, ef, rs. cbv beta. rewrite getS_bind, Hr1, Hset.
+        erewrite bind_eq by exact Hd1.
+        unfold st, ef, rs. cbv beta. unfold set_namespaces. rewrite modify_bind. cbn [raise fst snd].
+        f_equal. f_equal. destruct HWd as (Hc1 & _ & He1 & Hn & Hcb & Hbp & Hsid & Hesid).
+        unfold down. cbn. rewrite Hc1, Hcb, Hbp, Hsid, He1, Hesid. reflexivity. }
+    destruct Hw as [e Hw].
+    assert (Hst : st (api_connect c nss auth true false window) s = down s1).
+    { unfold api_connect, st. erewrite bind_eq by exact Hb. unfold st, ef, rs. cbv beta iota.
+      erewrite bind_eq_err by exact Hw. reflexivity. }
+    split; [|split; [exact Hst|rewrite Hst; apply down_fully]].
+    unfold api_connect, rs. erewrite bind_eq by exact Hb. unfold st, ef, rs. cbv beta iota.
+    erewrite bind_eq_err by exact Hw. reflexivity.
 Qed.
 
 (* ---- mirror: what each server packet does to `namespaces` / `connected` ---- *)
@@ -1124,11 +1188,41 @@ Proof.
   rewrite st_bind_obliv by (intro; apply obliv_trigger_). reflexivity.
 Qed.
 
-(* DISCONNECT while connected: the namespace is notified once and removed; when it was the last
-   one, `connected` is cleared and the transport is closed without further notifications *)
-Theorem mirror_disconnect c pns s calls :
-  connected s = true -> eio_state s = EConnected ->
+(* DISCONNECT for a listed namespace (or while connected): the namespace is notified once and
+   removed - also inside the connect() wait window, where `connected` is still False; when it was
+   the last one, `connected` is cleared and the transport is closed without further notifications *)
+Lemma mirror_disconnect_gen c pns s calls fl :
+  eio_state s = EConnected ->
   let ns := ns_or_default pns in
+  connected s = true \/ ahas str_eqb (namespaces s) ns = true ->
+  notify c ev_disconnect ns [r_server_disconnect] = Some calls -> notify c ev_final ns [] = Some fl ->
+  handle_disconnect c pns s =
+  match adel str_eqb (namespaces s) ns with
+  | [] => (down s, to_calls calls ++ to_calls fl, Ok tt)
+  | d => (with_namespaces s d, to_calls calls ++ to_calls fl, Ok tt)
+  end.
+Proof.
+  intros He ns Hg Hn Hf. unfold handle_disconnect. fold ns. rewrite getS_bind.
+  assert (Hguard : negb (connected s) && negb (ahas str_eqb (namespaces s) ns) = false).
+  { destruct Hg as [H|H]; rewrite H; [reflexivity|apply andb_false_r]. }
+  rewrite Hguard.
+  pose proof (trigger_notify c (s2l "disconnect") ns [r_server_disconnect] calls s Hn) as T1.
+  change (PStr (s2l "disconnect")) with ev_disconnect in T1.
+  erewrite bind_eq by exact T1. unfold st, ef, rs. cbv beta.
+  pose proof (trigger_notify c (s2l "__disconnect_final") ns [] fl s Hf) as T2.
+  change (PStr (s2l "__disconnect_final")) with ev_final in T2.
+  erewrite bind_eq by exact T2. unfold st, ef, rs. cbv beta.
+  unfold set_namespaces. rewrite modify_bind, getS_bind. cbn [namespaces].
+  destruct (adel str_eqb (namespaces s) ns) as [|x d] eqn:Ed.
+  - unfold set_connected. rewrite modify_bind.
+    erewrite eio_disconnect_unconnected by (try reflexivity; exact He).
+    cbn [fst snd]. rewrite app_nil_r. reflexivity.
+  - cbn [ret fst snd]. rewrite app_nil_r. unfold with_namespaces. reflexivity.
+Qed.
+Theorem mirror_disconnect c pns s calls :
+  eio_state s = EConnected ->
+  let ns := ns_or_default pns in
+  connected s = true \/ ahas str_eqb (namespaces s) ns = true ->
   notify c ev_disconnect ns [r_server_disconnect] = Some calls -> notify c ev_final ns [] = Some [] ->
   handle_disconnect c pns s =
   match adel str_eqb (namespaces s) ns with
@@ -1136,25 +1230,15 @@ Theorem mirror_disconnect c pns s calls :
   | d => (with_namespaces s d, to_calls calls, Ok tt)
   end.
 Proof.
-  intros Hc He ns Hn Hf. unfold handle_disconnect. rewrite getS_bind, Hc. cbn [negb]. fold ns.
-  pose proof (trigger_notify c (s2l "disconnect") ns [r_server_disconnect] calls s Hn) as T1.
-  change (PStr (s2l "disconnect")) with ev_disconnect in T1.
-  erewrite bind_eq by exact T1. unfold st, ef, rs. cbv beta.
-  pose proof (trigger_notify c (s2l "__disconnect_final") ns [] [] s Hf) as T2.
-  change (PStr (s2l "__disconnect_final")) with ev_final in T2.
-  erewrite bind_eq by exact T2. unfold st, ef, rs. cbv beta.
-  unfold set_namespaces. rewrite modify_bind, getS_bind. cbn [namespaces].
-  destruct (adel str_eqb (namespaces s) ns) as [|x d] eqn:Ed.
-  - unfold set_connected. rewrite modify_bind.
-    erewrite eio_disconnect_unconnected by (try reflexivity; exact He).
-    cbn [fst snd to_calls map app]. rewrite app_nil_r. reflexivity.
-  - cbn [ret fst snd to_calls map app]. rewrite app_nil_r. unfold with_namespaces. reflexivity.
+  intros He ns Hg Hn Hf. pose proof (mirror_disconnect_gen c pns s calls [] He Hg Hn Hf) as H. cbv zeta in H. fold ns in H.
+  rewrite H. cbn [to_calls map]. rewrite app_nil_r. reflexivity.
 Qed.
-(* ... and the exception (7.1-i): while `connected` is False - in particular during the wait
-   window of connect() - a DISCONNECT is dropped entirely *)
-Theorem mirror_disconnect_ignored c pns s :
-  connected s = false -> handle_disconnect c pns s = (s, [], Ok tt).
-Proof. intro Hc. unfold handle_disconnect. rewrite getS_bind, Hc. reflexivity. Qed.
+(* the only DISCONNECT that is dropped: the client is not connected and does not list the namespace
+   (the server's echo of the client's own disconnect()) *)
+Theorem mirror_disconnect_unknown c pns s :
+  connected s = false -> ahas str_eqb (namespaces s) (ns_or_default pns) = false ->
+  handle_disconnect c pns s = (s, [], Ok tt).
+Proof. intros Hc Hn. unfold handle_disconnect. rewrite getS_bind, Hc, Hn. reflexivity. Qed.
 
 (* CONNECT_ERROR: the handler is told, the namespace is removed; for '/' everything is dropped *)
 Theorem mirror_error c pns data s calls :
@@ -1172,16 +1256,14 @@ Proof.
   destruct (str_eqb ns slash); cbn [fst snd]; rewrite app_nil_r; reflexivity.
 Qed.
 
-(* the mirror clause is FALSE of the faithful model for CONNECT immediately followed by DISCONNECT
-   inside the wait window: connect() returns normally and the namespace the server has ended is
-   still listed, `connected` is set and emit on it sends an EVENT *)
-Theorem mirror_refuted :
-  exists c nss auth window,
-    classify_window window = [(0%Z, slash); (1%Z, slash)] /\
-    let r := step c cli_init (CConnect nss auth false true false window) in
-    snd r = [Sent (PStr (s2l "0{}")); Call 1 []; Ret PNone] /\
-    connected (fst r) = true /\ namespaces (fst r) = [(slash, PStr (s2l "S0"))] /\
-    snd (step c (fst r) (CEmit (s2l "x") PNone (Some slash) None)) = [Sent (PStr (s2l "2[""x""]"))].
-Proof.
-  exists cfg_w, (Some [slash]), PNone, window_disconnect. vm_compute. repeat split.
-Qed.
+(* CONNECT immediately followed by DISCONNECT of the only requested namespace inside the wait
+   window (what an always_connect server sends when it refuses): both handlers are told, the
+   namespace is removed, the transport is closed, connect() raises ConnectionError and the client
+   is fully disconnected; emit raises BadNamespaceError *)
+Theorem window_disconnect_fails_connect :
+  classify_window window_disconnect = [(0%Z, slash); (1%Z, slash)] /\
+  let r := step cfg_w cli_init (CConnect (Some [slash]) PNone false true false window_disconnect) in
+  snd r = [Sent (PStr (s2l "0{}")); Call 1 []; Call 2 [r_server_disconnect]; Raised ConnectionError] /\
+  fully_disconnected (fst r) /\
+  snd (step cfg_w (fst r) (CEmit (s2l "x") PNone (Some slash) None)) = [Raised BadNamespaceError].
+Proof. vm_compute. repeat split. Qed.
